@@ -63,9 +63,7 @@ def eqOf : Sexp → Option EqDecl
 
 def serOf : Sexp → Option (Option (List String))
   | .atom "-" => some none
-  | .list (.atom "l" :: ns) => do
-    let l ← ns.mapM nameOf
-    if repeats l then none else pure (some l)
+  | .list (.atom "l" :: ns) => (ns.mapM nameOf).map some
   | _ => none
 
 def eitOf : Sexp → Option (Option Bool)
